@@ -120,6 +120,7 @@ type VC struct {
 	useRoot     bool
 	revealed    map[string]bool // opaque spec functions revealed in this VC
 	revealAll   bool
+	renames     map[string]string // recorded contract name -> current name of the variable declared at that position
 	// inlining of contract-less repo callees
 	inl      bool
 	posBlk   int
